@@ -45,8 +45,9 @@ struct Monitor
         events++;
         const std::string pt = v.point;
         const long k = (long) v.k;
-        // Lanczos re-orthogonalises fully at every step; Arnoldi only when needed (0.717 test), so its drift of V'V - I adds up over the restarts
-        const LD grow = lanczos ? std::sqrt((LD) (1 + events)) : (LD) (1 + n_compress);
+        // rounding adds up over the events like a random walk (both classes test the new residual against the basis at every step since fix 26e3e70;
+        // before it, Arnoldi skipped the test when ||f|| > 0.717||h|| and V'V - I grew geometrically over the restarts)
+        const LD grow = std::sqrt((LD) (1 + (lanczos ? events : n_compress)));
         const LD kk = std::max<long>(k, 10);
         if (pt == "breakdown" || pt == "breakdown-unresolved")
         {
